@@ -1,6 +1,12 @@
 package checks
 
-import "github.com/formancehq/ledger/verifharness/core"
+import (
+	"fmt"
+	"math/rand"
+
+	"github.com/formancehq/ledger/verifharness/core"
+	"github.com/formancehq/ledger/verifharness/sim"
+)
 
 const concRule = "generated scenarios of 2-4 concurrent clients (1-2 writes each) over a funded pre-history with few shared accounts; each scenario is executed (a) under the cooperative scheduler for every interleaving of store calls / lock waits / COMMITs with at most 2 (thorough: 3) preemptions, each enumerated once up to a cap, plus random unbounded walks, and (b) free-running under the Go race detector. After each execution: commit-time allowance of every bounded source (from the store's post-commit volumes), stored volumes = fold of committed postings, per-key / per-reference / per-transaction counts, response legality, and porcupine linearizability against a sequential ledger model. Distinct = (scenario, interleaving hash, outcome vector); non-trivial = the interleaving contains at least one client switch while another client was still enabled"
 
@@ -8,7 +14,35 @@ func init() {
 	core.Register(&core.Check{
 		ID: "C06", Level: "exploration", Rule: concRule + ". Scenario kinds: concurrent spends of one source beyond its balance (postings, bounded scripts, overdraft up to X, never-used account/asset pairs), non-forced reverts racing with spends",
 		Assumptions: []string{seqAssume, "row locks, READ COMMITTED re-reads and deadlock detection behave as modelled in memstore", "yield points are store calls, lock waits and COMMIT; preemptions between two Go statements without a store call are reached only in free mode"},
-		Run:         func(r *core.Run) { runConcurrent(r, "C06") },
+		Run: func(r *core.Run) {
+			if !r.RaceMode {
+				// sequential part: transactions crediting one account several times, later spends,
+				// then non-forced reverts (the balance check must be cumulative over the reversed postings)
+				runSeq(r, seqConfig{Prop: "C06", Histories: [2]int{200, 4000}, OpsPer: [2]int{25, 40},
+					Tune: func(st *sim.GenState, rng *rand.Rand) { st.NoBig = true },
+					Mutate: func(op *sim.Op, rng *rand.Rand, st *sim.GenState) {
+						op.DryRun = false
+						switch x := rng.Intn(10); {
+						case x < 3:
+							a := sim.GenAccounts[1+rng.Intn(len(sim.GenAccounts)-1)]
+							n := 2 + rng.Intn(2)
+							var ps []sim.P
+							for i := 0; i < n; i++ {
+								ps = append(ps, sim.P{Source: "world", Destination: a, Asset: "USD", Amount: fmt.Sprint(20 + rng.Intn(60))})
+							}
+							*op = sim.Op{Kind: "postings", Postings: ps}
+						case x < 5:
+							a := sim.GenAccounts[1+rng.Intn(len(sim.GenAccounts)-1)]
+							*op = sim.Op{Kind: "postings", Postings: []sim.P{{Source: a, Destination: "fees", Asset: "USD", Amount: fmt.Sprint(10 + rng.Intn(60))}}}
+						case x < 8 && len(st.TxIDs) > 0:
+							*op = sim.Op{Kind: "revert", TxID: st.TxIDs[rng.Intn(len(st.TxIDs))], AtEffectiveDate: rng.Intn(2) == 0}
+						}
+					},
+					NonTrivial: func(m *sim.Mirror) bool { return m.Classes[sim.CInsufficient] > 0 && m.Committed > 2 },
+				})
+			}
+			runConcurrent(r, "C06")
+		},
 	})
 	core.Register(&core.Check{
 		ID: "C13", Level: "exploration", Rule: concRule + ". Scenario kinds: N requests sharing an idempotency key with identical input (inputs whose second execution would fail on its own: spend the whole balance, revert, unique reference), same key with different inputs, for creates, reverts and metadata writes; plus sequential replays in the C13 sequential loop",
